@@ -549,6 +549,39 @@ def check_mujoco_transparency(ck, names):
                 ck.prove(f"vmap.{ename}.{cname}", [], conj(goals), replay=lambda res, e=ename, c=cname: (True, {"note": f"vmapped {e}.{c} differs from the per-element call (physics stubbed)"}), sample=False, timeout=60)
 
 
+def check_construction_order(ck):
+    """`depends only on its explicit arguments`: the traced program (with its captured constants) of each component of a wrapped environment is
+    the same whether the wrapper was built alone in a fresh interpreter process or after other, differently parametrised wrappers (forward and
+    reverse order) — a wrapper utility that memoises per-process state keyed on less than its arguments is a violation"""
+    import json
+    import os
+    import subprocess
+    import sys
+    from concurrent.futures import ThreadPoolExecutor
+    from props.c12_worker import targets
+    names = [n for n, _ in targets()]
+    idx = list(range(len(names)))
+    jobs = [("alone:" + names[i], ["--only", str(i)]) for i in idx] + [("forward", ["--order", ",".join(map(str, idx))]), ("reverse", ["--order", ",".join(map(str, reversed(idx)))])]
+
+    def run(job):
+        p = subprocess.run([sys.executable, "-W", "ignore", "-m", "props.c12_worker"] + job[1], capture_output=True, text=True, env=dict(os.environ), cwd=core.ROOT, timeout=900)
+        line = [l for l in p.stdout.splitlines() if l.startswith("C12WORKER ")]
+        if not line:
+            raise RuntimeError("c12_worker failed: " + (p.stderr or p.stdout)[-600:])
+        return job[0], json.loads(line[0][len("C12WORKER "):])
+    with ThreadPoolExecutor(6) as ex:
+        res = dict(ex.map(run, jobs))
+    for n in names:
+        alone = res["alone:" + n][n]
+        for order in ("forward", "reverse"):
+            diff = [c for c in alone if alone[c] != res[order][n].get(c)]
+            ck.fact(f"construction_order.{n}.{order}", not diff,
+                    f"components whose traced program or captured constants differ between the instance built alone in a fresh process and the one built in {order} order "
+                    f"among {len(names)} wrappers: {diff}")
+    ck.encoded({"function": "transition/observation/reward/truncate of 9 wrapped environments (RescaleAction, RescaleObservation, ClipAction, ClipObservation, TimeLimit), "
+                            "each built alone and in two construction orders in fresh processes", "equations": 0, "inputs": 0, "outputs": 0})
+
+
 def main():
     ck = Check("C12", "transformations transparent, lanes never mix")
     ck.mode = "REAL"
@@ -579,6 +612,8 @@ def main():
         check_pytree_roundtrip(ck)
     with ck.section("env_transparency"):
         check_env_transparency(ck)
+    with ck.section("construction_order"):
+        check_construction_order(ck)
     with ck.section("eager_equals_traced"):
         check_eager_equals_traced(ck)
     mj = ["HalfCheetah", "InvertedPendulum"] if not ck.thorough else ["Ant", "HalfCheetah", "Hopper", "Humanoid", "HumanoidStandup", "InvertedDoublePendulum", "InvertedPendulum", "Pusher", "Reacher",
